@@ -53,9 +53,9 @@ func VerifH_C08_StorageRaces() {
 	opB := vChoose("opB", 5)
 	vAssume(opA <= opB)
 	if vTier() == 1 {
-		// thorough: three concurrent calls
-		opC := vChoose("opC", 5)
-		vAssume(opB <= opC)
+		// thorough: a third concurrent call, one of the two mutating operations (Put, or the
+		// Finalize/Close that ends the session)
+		opC := []int{0, 4}[vChoose("opC", 2)]
 		vConcurrently(
 			func() { vSCOp(sc, opA, e1, first.c) },
 			func() { vSCOp(sc, opB, e2, first.c) },
